@@ -210,4 +210,152 @@ theorem dispatch_mono_partial {p p' : Program} (hx : Ext p p') (f : Frame) (st :
     exact evalCall_mono hx f _ _ _ h
   all_goals simp only [dispatch]
 
+-- ------------------------------------------------------------------ lifting to `step` and `eval`
+
+/-- The same machine state under another program. -/
+def withProg (p' : Program) (s : State) : State := { s with prog := p' }
+
+/-- The step neither failed, crashed nor left the fragment. -/
+def okStep : StepResult → Bool
+  | .cont _ => true
+  | .done _ _ => true
+  | _ => false
+
+theorem stopCheck_withProg (p' : Program) (a : State) (f : Frame) (st : St) (e : Expr) :
+    stopCheck (withProg p' a) f st e = C08.mapState (withProg p') (stopCheck a f st e) := by
+  have hs : (withProg p' a).stopAt = a.stopAt := rfl
+  unfold stopCheck
+  rw [hs]
+  by_cases h1 : (a.stopAt == some e.id) = true
+  · rw [if_pos h1, if_pos h1]
+    by_cases h2 : doneSub st e = true
+    · rw [if_pos h2, if_pos h2]; cases f.values <;> simp [C08.mapState]
+    · rw [if_neg h2, if_neg h2]
+      split <;> (try split) <;> simp [C08.mapState]
+  · rw [if_neg h1, if_neg h1]; simp [C08.mapState]
+
+theorem setTop_withProg (p' : Program) (a : State) (f : Frame) :
+    setTop (withProg p' a) f = withProg p' (setTop a f) := by
+  unfold setTop withProg; cases hf : a.frames <;> simp [hf]
+
+/-- **`step` is monotone in the program**: a step that continues or finishes under `s.prog` does the
+same, with the same successor state, under any extension by fresh function definitions. -/
+theorem step_mono (s : State) (p' : Program) (hx : Ext s.prog p') (h : okStep (step s) = true) :
+    step (withProg p' s) = C08.mapState (withProg p') (step s) := by
+  unfold step at h ⊢
+  simp only [withProg] at ⊢
+  match hf : s.frames with
+  | [] => simp [hf, C08.mapState, withProg]
+  | f :: callers =>
+    simp only [hf] at h ⊢
+    match he : f.exprs with
+    | [] =>
+      simp only [he] at h ⊢
+      cases callers with
+      | nil => cases hv : f.values <;> simp [hv, C08.mapState, setTop, hf, withProg]
+      | cons caller rest =>
+        cases hv : f.values with
+        | nil => simp [hv, C08.mapState, withProg]
+        | cons v vs =>
+          simp only [hv]
+          by_cases hc : (f.callerId.isSome && s.stopAt == f.callerId) = true <;>
+            simp [hc, C08.mapState, withProg]
+    | (st, e0) :: rest =>
+      simp only [he] at h ⊢
+      by_cases c1 : (s.interrupted || s.interruptAt.contains (s.ticks + 1)) = true
+      · rw [if_pos c1] at h; simp [okStep] at h
+      · rw [if_neg c1] at h
+        by_cases c2 : limitReached s.tickLimit (s.ticks + 1) = true
+        · rw [if_pos c2] at h; simp [okStep] at h
+        · rw [if_neg c2] at h
+          by_cases c3 : limitExceeded s.stackLimit (f :: callers).length = true
+          · rw [if_pos c3] at h; simp [okStep] at h
+          · rw [if_neg c3] at h
+            simp only [c1, c2, c3, if_false, Bool.false_eq_true]
+            cases hfl : fails (dispatch s.prog { f with exprs := rest } st e0) with
+            | true =>
+              revert h hfl
+              cases dispatch s.prog { f with exprs := rest } st e0 <;> simp [fails, okStep]
+            | false =>
+              rw [dispatch_mono_partial hx _ _ _ hfl]
+              cases hd : dispatch s.prog { f with exprs := rest } st e0 with
+              | ok f' =>
+                have := stopCheck_withProg p' (setTop ({ s with ticks := s.ticks + 1, interrupted := false } : State) f') f' st e0
+                simpa [withProg, setTop, hf, c1] using this
+              | okOut f' o =>
+                have := stopCheck_withProg p' (setTop ({ s with ticks := s.ticks + 1, out := s.out ++ o, interrupted := false } : State) f') f' st e0
+                simpa [withProg, setTop, hf, c1] using this
+              | newFrame f' callee => simp [C08.mapState, withProg]
+              | err f' st' vals er => simp [hd, fails] at hfl
+              | panic site => simp [hd, fails] at hfl
+              | unsupported w => simp [C08.mapState]
+
+theorem step_cont_prog (s s' : State) (h : step s = .cont s') : s'.prog = s.prog := by
+  unfold step at h
+  match hf : s.frames with
+  | [] => simp [hf] at h
+  | f :: callers =>
+    simp only [hf] at h
+    match he : f.exprs with
+    | [] =>
+      simp only [he] at h
+      cases callers with
+      | nil => cases hv : f.values <;> simp [hv] at h
+      | cons caller rest =>
+        cases hv : f.values with
+        | nil => simp [hv] at h
+        | cons v vs => simp only [hv] at h; split at h <;> simp at h; subst h; rfl
+    | (st, e0) :: rest =>
+      simp only [he] at h
+      repeat' split at h
+      all_goals (try (unfold stopCheck at h; repeat' split at h))
+      all_goals (try (simp at h))
+      all_goals (try (subst h; simp [setTop, hf]))
+
+/-- **`eval` is monotone in the program** (`_partial`: function definitions only): an evaluation
+that ends with a value under `s.prog` ends with the same value after the same number of steps, in
+the same state, under any extension of the program by fresh function definitions. -/
+theorem eval_mono_partial (p' : Program) : ∀ (n : Nat) (s s' : State) (v : Value),
+    Ext s.prog p' → Resume.eval n s = .done s' v →
+    Resume.eval n (withProg p' s) = .done (withProg p' s') v := by
+  intro n
+  induction n with
+  | zero => intro s s' v hx h; simp [Resume.eval] at h
+  | succ n ih =>
+    intro s s' v hx h
+    simp only [Resume.eval] at h ⊢
+    cases hs : step s with
+    | cont s1 =>
+      simp only [hs] at h
+      have hm := step_mono s p' hx (by simp [hs, okStep])
+      rw [hs] at hm
+      simp only [hm, C08.mapState]
+      exact ih s1 s' v (by rw [step_cont_prog s s1 hs]; exact hx) h
+    | done s1 v1 =>
+      simp only [hs] at h
+      have hm := step_mono s p' hx (by simp [hs, okStep])
+      rw [hs] at hm
+      simp only [hm, C08.mapState]
+      simp at h
+      obtain ⟨h1, h2⟩ := h
+      subst h1 h2
+      rfl
+    | error s1 e => simp [hs] at h
+    | panic site => simp [hs] at h
+    | unsupported w => simp [hs] at h
+
+/-- Corollary for one `run` request: loading further FUNCTION definitions with fresh names before
+the request does not change its value. -/
+theorem request_defs_upfront_partial (fuel : Nat) (s s' : State) (exprs : List Expr) (last : Expr)
+    (v : Value) (extra : List FunDef) (hfresh : freshFuns s.prog extra = true)
+    (h : Resume.eval fuel { setExprs s exprs with stopAt := some last.id } = .done s' v) :
+    Resume.eval fuel (withProg { s.prog with funs := s.prog.funs ++ extra }
+        { setExprs s exprs with stopAt := some last.id }) =
+      .done (withProg { s.prog with funs := s.prog.funs ++ extra } s') v := by
+  apply eval_mono_partial
+  · have : ({ setExprs s exprs with stopAt := some last.id } : State).prog = s.prog := by
+      unfold setExprs; cases s.frames <;> rfl
+    rw [this]; exact ext_of_fresh s.prog extra hfresh
+  · exact h
+
 end C11
